@@ -8,7 +8,7 @@ from ..common import GLOBAL_TRUSTED_BASE
 from ..model import call_many
 from ..pool import guarded, run_cases
 
-THEOREMS = ["C14_name_sanitised", "C14_merge_nodup", "C14_signature_once", "C14_examples", "C14_rest_names_once_and_star_free", "C14_rest_parser_sanitises", "C14_rest_names_example"]
+THEOREMS = ["C14_name_sanitised", "C14_merge_nodup", "C14_signature_once", "C14_examples", "C14_rest_names_once_and_star_free", "C14_rest_parser_sanitises", "C14_rest_names_example", "C14_google_numpy_names_stripped"]
 ALLOWED_KEYS = {"typ", "doc", "default", "x_typ"}
 STYLES = ("rest", "google", "numpydoc")
 PNAMES = ["alpha", "beta", "gamma", "delta", "eps", "zeta", "return_type", "returns", "type"]
